@@ -182,9 +182,12 @@ def extract(repo="/repo"):
     T["recvCap"] = cap
     # lock scope fact: recv_frame's body is one `with self.lock`
     f = _find(fb.body, ast.FunctionDef, "recv_frame")
+    # … every touch of the shared parse state: the reads (recv_strict) AND the reset (clear)
     T["frameUnderLock"] = _lexically_inside_with(
         f, "lock", lambda m: isinstance(m, ast.Call) and isinstance(m.func, ast.Attribute)
-        and m.func.attr == "recv_strict")
+        and m.func.attr == "recv_strict") and _lexically_inside_with(
+        f, "lock", lambda m: isinstance(m, ast.Call) and isinstance(m.func, ast.Attribute)
+        and m.func.attr == "clear")
 
     # ------------------------------------------------------------------ _utils.py
     utils = _parse(repo, "_utils.py")
